@@ -697,10 +697,16 @@ def split_path(spec):
     return parts[0], parts[1:]
 
 
-def build_unit(unit_path, vacuity=False):
+def build_unit(unit_path, vacuity=False, degrade=None):
     """Returns (generated_text, info) where info has functions under contract, rule counts,
-    line map (generated line -> origin)."""
+    line map (generated line -> origin).
+    degrade: {fn path: reason} - functions whose body cannot be brought under contract on this tree (lost anchor, hint that
+    no longer compiles, unsupported construct): they are emitted as `#[verifier::external_body]` with their contract, i.e. the
+    contract is ASSUMED for this run; every property that depends on such a function is UNDECIDED (driver/main.py), the others
+    keep their verdict.  A lost anchor found while weaving degrades the function on the fly."""
     rules = Rules()
+    degrade = dict(degrade or {})
+    degraded = []
     lines = open(unit_path).read().split('\n')
     out = []
     fns = []      # contracted functions: dict(name, file, path, gen_line_start, gen_line_end)
@@ -842,7 +848,22 @@ def build_unit(unit_path, vacuity=False):
                     rules.hit('R8', 'X::TYPE -> X_TYPE')
                     return mm.group(1).upper() + '_TYPE'
                 txt = re.sub(r'\b([A-Z][A-Za-z0-9]*)::TYPE\b', _r8b, txt)
-            woven = weave_fn(txt, w, rules, vacuity=False, name=fname)
+            def _degrade(why):
+                w.opaque = True
+                w.novacuity = True
+                w.at, w.closures, w.iters, w.rewrites = [], {}, {}, []
+                if 'external_body' not in w.attr:
+                    w.attr = (w.attr.rstrip('\n') + '\n' if w.attr.strip() else '') + '#[verifier::external_body]\n'
+                degraded.append({'function': f + ' :: ' + fname, 'reason': why})
+            if fname in degrade and not w.opaque:
+                _degrade(degrade[fname])
+            try:
+                woven = weave_fn(txt, w, rules, vacuity=False, name=fname)
+            except ExtractError as e:
+                if 'lost anchor' not in str(e) or w.opaque:
+                    raise
+                _degrade(str(e))
+                woven = weave_fn(txt, w, rules, vacuity=False, name=fname)
             a, b = emit('// ---- extracted fn: %s :: %s\n' % (f, fname) + woven)
             in_trait_impl = any(re.match(r'impl\b.*\bfor\b', seg) for seg in path[:-1])
             skip_vac = w.novacuity or in_trait_impl
@@ -878,7 +899,7 @@ def build_unit(unit_path, vacuity=False):
     scan = {}
     for kw in ('assume(', 'admit(', 'external_body', 'assume_specification', 'axiom fn', 'external_type_specification', 'external_fn_specification', 'uninterp spec fn'):
         scan[kw] = len(re.findall(re.escape(kw), blank_noncode(text)))
-    info = {'functions': fns, 'items': items, 'rules_fired': rules.fired, 'rule_notes': rules.dropped, 'assumption_scan': scan}
+    info = {'functions': fns, 'items': items, 'rules_fired': rules.fired, 'rule_notes': rules.dropped, 'assumption_scan': scan, 'degraded': degraded}
     return text, info
 
 
